@@ -69,6 +69,7 @@ var pieceTable = []piece{
 	{name: "nl", val: "\n"},
 	// extended alphabet (random tier, fuzzing)
 	{name: "sq", val: `'`},
+	{name: `\"`, val: `"`, src: `\"`, rawVal: `\"`}, // the documented escape written out, also inside '...'
 	{name: "ä", val: "ä"},
 	{name: `\u00e4`, val: "ä", src: `\u00e4`, rawVal: `\u00e4`},
 	{name: `\t`, val: "\t", src: `\t`, rawVal: `\t`},
